@@ -43,6 +43,31 @@ fn main() {
             for m in &ms { if let Err(e) = validate214(&m.wasm, FeatureSet::DEFAULT) { bad += 1; if bad < 8 { println!("{} : {}", m.coords, e); } } }
             println!("{} members, {} invalid", ms.len(), bad);
         }
+        "dwarf" => {
+            let n: usize = av[2].parse().unwrap();
+            let w = wgen::families::build_leb_x(n, 0, 8, false, false);
+            let a = decode(&w).unwrap();
+            let o = wdwarf::Opts { version: av[3].parse().unwrap(), one_sequence: false, file_index: 0, low_pc: wdwarf::LowPc::Body };
+            let secs = wdwarf::synthesize(&a, o).unwrap();
+            let mut input = w.clone();
+            for (n, d) in &secs { wgen::families::append_custom(&mut input, n, d); }
+            let ain = decode(&input).unwrap();
+            println!("input code_contents_start={:?} funcs:", ain.code_contents_start);
+            for f in ain.funcs.iter() { if let Some(b) = &f.body { println!("  entry {:?} body {:?} ops {:?}", b.entry, b.body, b.ops.iter().map(|o| (o.0.name, o.1)).collect::<Vec<_>>()); } }
+            let rb = wdwarf::read_back(&wdwarf::debug_sections_of(&ain)).unwrap();
+            println!("input rows: {:?}", rb.rows.iter().map(|r| (r.address, r.line, r.end_sequence)).collect::<Vec<_>>());
+            println!("input subs: {:?}", rb.subprograms);
+            let mut cfg = walrus::ModuleConfig::new(); cfg.generate_dwarf(true);
+            let mut m = cfg.parse(&input).unwrap();
+            let out = m.emit_wasm();
+            let b = decode(&out).unwrap();
+            println!("output code_contents_start={:?}", b.code_contents_start);
+            for f in b.funcs.iter() { if let Some(bb) = &f.body { println!("  entry {:?} body {:?} ops {:?}", bb.entry, bb.body, bb.ops.iter().map(|o| (o.0.name, o.1)).collect::<Vec<_>>()); } }
+            match wdwarf::read_back(&wdwarf::debug_sections_of(&b)) {
+                Ok(rb) => { println!("output rows: {:?}", rb.rows.iter().map(|r| (r.address, r.line, r.end_sequence)).collect::<Vec<_>>()); println!("output subs: {:?}", rb.subprograms); }
+                Err(e) => println!("read back error {}", e),
+            }
+        }
         "bodies" => {
             let l: usize = av[2].parse().unwrap();
             let alpha = wgen::body::alphabet();
